@@ -30,3 +30,10 @@ def c22_three_nonrunning_with_reordering(case, reason):
     return (case.get("kind") == "history" and case.get("invariant") == "KeepsRunning" and case.get("fifo") is False
             and case.get("since") == 3 and set(tail) <= {"passive-to-bus", "to-user-space"}
             and "to-user-space" in tail)
+
+
+def c02_division_on_negative(case, reason):
+    """F1 in fixed-point statements: the run of the case's own bytecode executes a DIV or MOD instruction while
+    its dividend or divisor is negative as a signed number (flag computed by spec/Fixed.tla DivOnNegative by
+    stepping the program on the case's inputs): the instruction divides unsigned"""
+    return case.get("verdict") == "wrong" and case.get("div_on_negative") is True
